@@ -201,10 +201,58 @@ def run(tier: str, seed: int) -> int:
                 mimg = model["ok"].get(s["domain"])
                 if mimg != img:
                     res.mismatches.append({"op": "storage.boot", "kind": kind, "kconfig": kconfig})
+    ncs_build_cases(res, drv, seed)
     res.sample({"vendor": "nordicsemi.com", "class": "nRF54H20_sample_root", "vid": rfc4122_v5(DNS, "nordicsemi.com").hex(),
                 "cid": rfc4122_v5(rfc4122_v5(DNS, "nordicsemi.com"), "nRF54H20_sample_root").hex()})
     drv.close()
     return finish(res, st, RULE, NOTE)
+
+
+def ncs_build_cases(res, drv, seed):
+    """site 3 through the NCS build script (ncs/build.py storage --config-file): a configured pair puts its envelope into the configured role's slot;
+    one pair given to two roles is an error the build sees (exit status) and nothing is written"""
+    import random
+    rng = random.Random(f"{seed}:c13ncs")
+    with tempfile.TemporaryDirectory(prefix="verif_c13ncs_") as d:
+        v, c = "build.example", "Sensor_v2 é"
+        b = None
+        k = 0
+        while b is None:
+            b = c07.envelope_for(seed, 997000 + k, v, c, rng, d)
+            k += 1
+        path = os.path.join(d, "custom.suit")
+        open(path, "wb").write(b)
+        for soc in ("nrf54h20", "nrf9280"):
+            layout = drv.call({"op": "storage.layout", "soc": soc})["ok"]
+            slots = {s_["role"]: s_ for s_ in layout["slots"]}
+            role = "APP_LOCAL_2" if "APP_LOCAL_2" in slots else next(r for r in c07.CONFIGURABLE if r in slots)
+            tag = c07.CONFIGURABLE[role]
+            for what, text, ok in (("assigned", f'SB_CONFIG_SUIT_MPI_{tag}_VENDOR_NAME="{v}"\nSB_CONFIG_SUIT_MPI_{tag}_CLASS_NAME="{c}"\n', True),
+                                   ("one pair for two roles", f'SB_CONFIG_SUIT_MPI_{tag}_VENDOR_NAME="{v}"\nSB_CONFIG_SUIT_MPI_{tag}_CLASS_NAME="{c}"\n'
+                                    f'SB_CONFIG_SUIT_MPI_ROOT_VENDOR_NAME="{v}"\nSB_CONFIG_SUIT_MPI_ROOT_CLASS_NAME="{c}"\n', False)):
+                cfgp = os.path.join(d, f"{soc}_{ok}.config")
+                open(cfgp, "w").write(text)
+                outd = os.path.join(d, f"out_{soc}_{ok}")
+                os.makedirs(outd)
+                rc, log = common.run_ncs_build(["storage", "--input-envelope", path, "--storage-output-directory", outd, "--config-file", cfgp, "--soc", soc], d)
+                res.case(["ncs-build-storage", soc, what], nontrivial=True)
+                res.count("sites:storage-through-build-script")
+                left = sorted(os.listdir(outd))
+                if not ok:
+                    if rc == 0:
+                        res.spec_failures.append({"soc": soc, "kconfig": text, "what": f"{what}: the build script reported success (exit 0)", "files": left, "log": log[-300:]})
+                    elif left:
+                        res.spec_failures.append({"soc": soc, "kconfig": text, "what": f"{what}: rejected, and files were left in the output directory", "files": left})
+                    continue
+                fname = f"suit_installed_envelopes_{slots[role]['domain'].lower()}_merged.hex"
+                if rc != 0 or left != [fname]:
+                    res.spec_failures.append({"soc": soc, "kconfig": text, "exit": rc, "files": left, "expected": fname,
+                                              "what": "the envelope of the configured class did not land in the configured role's domain (build script)", "log": log[-300:]})
+                    continue
+                img = drv.call({"op": "ihex.read", "text": open(os.path.join(outd, fname)).read()})["ok"]
+                if [a for a, _ in img] != [0x0E1ED000 + slots[role]["offset"]]:
+                    res.spec_failures.append({"soc": soc, "kconfig": text, "segments": [a for a, _ in img], "expected": 0x0E1ED000 + slots[role]["offset"],
+                                              "what": "the envelope of the configured class did not land in the configured role's slot (build script)"})
 
 
 _uuid_cls = None
